@@ -2851,7 +2851,8 @@ class PGPKeyring(collections_abc.Container, collections_abc.Iterable, collection
             keys = {}
             if isinstance(key, PGPKey):
                 _key = key
-            elif os.path.isfile(key):
+            elif not isinstance(key, bytearray) and os.path.isfile(key):
+                # a bytearray is always key material: the os functions do not take one as a path
                 _key, keys = PGPKey.from_file(key)
             else:
                 _key, keys = PGPKey.from_blob(key)
